@@ -1,8 +1,11 @@
 """C08 — all implementation variants and feature flags give bit-identical results; missing CPU
 features fail cleanly.
 
-Proof: coq/Props/Properties_C08.v (variant selection: supported, flags only lower, clean failure).
-Tie:   (a) harness/k8_init.c — every (previous state, init function, flags) with the required CPU
+Proof: coq/Props/Properties_C08.v (variant selection: supported, flags only lower, clean failure; the instruction-set
+       extensions used by the code each variant installs lie within the variant's IMB_CPUFLAGS_* mask).
+Tie:   (t3) translators/t3_isa.py regenerates Gen/GenIsa.v from the rebuilt shared object on every run (instruction census
+           of the code reachable from init_mb_mgr_<variant>_internal);
+       (a) harness/k8_init.c — every (previous state, init function, flags) with the required CPU
            feature masked out of IMB_MGR.features: must return IMB_ERR_MISSING_CPUFLAGS_INIT_MGR,
            not crash, install nothing;
        (b) variant-vs-variant differential (harness/k1_algo.c): every work item on all 7 variants
@@ -20,13 +23,41 @@ def main(tier, seed):
     res = Result(PID, tier, seed, "proof")
     tb = common.build_lib()
     C = c04.consts()
+    isa, isa_err = None, None
+    try:
+        sys.path.insert(0, os.path.join(os.path.dirname(os.path.dirname(os.path.abspath(__file__))), "translators"))
+        import t3_isa
+        isa = t3_isa.main()
+    except Exception as ex:
+        isa_err = repr(ex)[:1500]
     pres = common.props_check(PID, extra_targets=["Props/Examples_C08.vo"])
     common.proof_coverage(res, pres, "make -k Props/Properties_C08.vo (coqc 8.16.1) + Print Assumptions",
                           ["Coq 8.16.1 kernel (vm_compute on the header's mask constants only)",
                            "translators/t0_consts.py (IMB_CPUFLAGS_* / IMB_FEATURE_* printed by a C program compiled against the header)",
+                           "translators/t3_isa.py (objdump -D / readelf of the rebuilt libIPSec_MB.so -> Gen/GenIsa.v: code graph from "
+                           "init_mb_mgr_<variant>_internal, instruction classes by mnemonic and operand form; 12 guarded dispatchers "
+                           "(ZUC use_gfni flag: literal 0 at the call site + source-level forwarding; ChaCha20-Poly1305 IFMA: feature-bit "
+                           "test in the dispatcher) are handled path-sensitively as documented in the translator; extensions without an "
+                           "IMB_FEATURE_* bit (AVX512 VBMI/VBMI2/BITALG, MOVBE, POPCNT) are not tracked)",
                            "Mgr/Select.v is a hand model of mb_mgr_{sse,avx2,avx512}.c / mb_mgr_auto.c / cpu_feature_adjust, tied by k8_init + variant table",
                            "equality of outputs across variants is established by differential testing, not by a theorem"])
     viol = []
+    # (t3) failing-input search for the instruction census: a CPU whose feature word is exactly the variant's mask
+    bad_isa = []
+    if isa:
+        req_name = {"sse_t1": "IMB_CPUFLAGS_SSE", "sse_t2": "IMB_CPUFLAGS_SSE_T2", "sse_t3": "IMB_CPUFLAGS_SSE_T3",
+                    "avx2_t1": "IMB_CPUFLAGS_AVX2", "avx2_t2": "IMB_CPUFLAGS_AVX2_T2", "avx2_t3": "IMB_CPUFLAGS_AVX2_T3",
+                    "avx2_t4": "IMB_CPUFLAGS_AVX2_T4", "avx512_t1": "IMB_CPUFLAGS_AVX512", "avx512_t2": "IMB_CPUFLAGS_AVX512_T2"}
+        for vname, r in isa["variants"].items():
+            if not r:
+                continue
+            for ft, w in r["features"].items():
+                bit = C.get("IMB_FEATURE_" + ft)
+                if bit is None:
+                    bad_isa.append(dict(variant=vname, feature=ft, what="IMB_FEATURE_%s not exported by the header" % ft))
+                elif (C[req_name[vname]] & bit) != bit:
+                    bad_isa.append(dict(variant=vname, feature=ft, cpu_features="0x%x (= %s: the selector installs %s on this CPU)" % (C[req_name[vname]], req_name[vname], vname),
+                                        instruction=w["insn"], in_function=w["node"], call_path=w["path"]))
     # (a) missing CPU flags
     k8 = common.build_harness("k8_init")
     p = common.run([k8], env=common.lib_env(), timeout=300)
@@ -157,6 +188,22 @@ def main(tier, seed):
         "traces_validated_against_impl": len(k8_lines) + len(by_item),
     })
     broken_proof = pres["discharged"] != pres["obligations"] or pres["failed"] or pres["obligations"] == 0
+    if isa:
+        res.coverage.update({"isa_census": {vn: (dict(nodes=r["nodes"], extensions=sorted(r["features"]), untracked=r["untracked"],
+                                                      guarded_edges=len(r["guarded_edges"])) if r else "not compiled")
+                                            for vn, r in isa["variants"].items()},
+                             "isa_total_nodes": isa["total_nodes"]})
+    for b in bad_isa[:8]:
+        b2 = dict(b)
+        b2.update(property=PID, what="code installed by variant %s can execute a %s instruction, which the variant's IMB_CPUFLAGS mask does not require: "
+                                     "on a CPU with exactly the required features the selector installs the variant and the instruction faults (#UD)"
+                                     % (b["variant"], b["feature"]),
+                  replay="translators/t3_isa.py on the rebuilt library; see instruction / call_path")
+        res.violation(b2, name="isa_%s_%s" % (b["variant"], b["feature"]))
+    if isa_err and not bad_isa:
+        res.violation(dict(property=PID, what="translators/t3_isa.py could not read the rebuilt library; Gen/GenIsa.v is stale, "
+                                              "theorem installed_code_within_required_features is not re-established", error=isa_err),
+                      note="no-failing-input-found", name="isa_translator")
     if bad_init:
         res.violation(dict(property=PID, what="init of a manager for an architecture whose CPU features are absent does not fail cleanly",
                            lines=bad_init, replay="harness/k8_init.c (no arguments)"), name="init_missing_flags")
@@ -178,7 +225,7 @@ def main(tier, seed):
         res.violation(d2, name="variants_%s" % alg)
     if hangs:
         res.violation(dict(property=PID, what="harness timed out (hang in the library)"), name="hang")
-    if broken_proof and not (bad_init or bad_table or groups):
+    if broken_proof and not (bad_init or bad_table or groups or bad_isa):
         res.violation(dict(property=PID, broken_obligations=pres["failed"], log=pres["log"][-2000:],
                            note="theorems of Props/Properties_C08.v no longer check; init and variant differential found no failing input"),
                       note="no-failing-input-found", name="unproved")
@@ -195,6 +242,17 @@ def replay(path):
         p = common.run([k8], env=common.lib_env(), timeout=300)
         print(p.stdout)
         return 1 if ("CRASH" in p.stdout or "errno=0" in p.stdout) else 0
+    if "instruction" in rp or "error" in rp:
+        sys.path.insert(0, os.path.join(os.path.dirname(os.path.dirname(os.path.abspath(__file__))), "translators"))
+        import t3_isa
+        C = c04.consts()
+        info = t3_isa.main()
+        rc = 0
+        for vname, r in info["variants"].items():
+            for ft, w in (r or {}).get("features", {}).items():
+                print(vname, ft, w["insn"], " > ".join(w["path"][-4:]))
+        pres = common.props_check(PID)
+        return 1 if (pres["failed"] or pres["discharged"] != pres["obligations"]) else 0
     k1 = common.build_harness("k1_algo", extra_src=["imbh.c"])
     workdir = os.path.join(common.BUILD, "c08")
     os.makedirs(workdir, exist_ok=True)
